@@ -128,7 +128,10 @@ Definition event_of_code (c : Z) : event :=
   else if c =? 3 then EvForward true true else if c =? 4 then EvForward true false
   else if c =? 5 then EvForward false true else if c =? 6 then EvForward false false
   else if c =? 7 then EvCancel true else if c =? 8 then EvCancel false
-  else if c =? 9 then EvOther true else EvOther false.
+  else if c =? 9 then EvOther true else if c =? 10 then EvOther false
+  (* 11 / 12: request_port_forward granted / denied with a re-key completing (NEWKEYS processed) while the
+     request is pending: the re-key is not an event of its own - it must not change the handler state *)
+  else if c =? 11 then EvForward true true else EvForward true false.
 
 (* (server_mode, kind, want_reply, srv_ok) -> [consulted; reply type or -1] *)
 Definition run_global (c : bool * list Z * bool * bool) : list Z :=
